@@ -14,7 +14,7 @@ ID = "C06"
 LEVEL = "exploration"
 SHARDS = {"quick": 8, "thorough": 16}
 RULE = ("case = (token 64B, key 32B, each passed as bytes or hex string, device nonce, prior state fresh / previously "
-        "authenticated with other good credentials / an earlier attempt timed out and its late replies arrived afterwards, reply mutation). Mutations: genuine; every single-bit flip of the 64-byte "
+        "authenticated with other good credentials / an earlier attempt timed out and its late replies arrived afterwards / the same credentials authenticated more than 12 h ago on this connection, reply mutation). Mutations: genuine; every single-bit flip of the 64-byte "
         "reply body (512, exhaustive); body length 0/32/63/65/96/128; every packet type nibble 0..15 in place of 1; error "
         "packet; reply built under a different key (random or 1 bit different); hash of a different nonce; silence. Oracle: "
         "genuine => Device.authenticate returns, a following refresh() is decrypted by the model under the new session key and "
@@ -59,6 +59,14 @@ def check_case(case: dict):
             dev.key = real_key
             if not ac.online:
                 out["setup_failed"] = True
+        if prior == "expired":
+            # same credentials authenticated more than 12 h ago on this very connection
+            import asyncio
+            await ac.authenticate(token, key)
+            await ac.refresh()
+            if not ac.online:
+                out["setup_failed"] = True
+            await asyncio.sleep(12 * 3600 + 60)
         if prior == "late":
             # an earlier authentication attempt timed out: the device's replies were delayed past the whole retry
             # budget, arrived afterwards on the still open connection, and the user tries again later
@@ -130,6 +138,13 @@ def check_case(case: dict):
             out["online"] = ac.online
             out["data_events"] = [(e.kind, e.note, e.key_gen) for e in dev.log[mark2:] if e.kind in ("data", "undecodable")]
             out["latest_gen"] = [len(c.session_keys) - 1 for c in dev.conns][-1]
+        elif prior == "expired":
+            # the old session has expired and the re-handshake was rejected: the next exchange must start with a handshake
+            try:
+                await ac._lan.send(FRAME)
+            except BaseException as e:
+                out["send_exc"] = e
+            out["after_kinds"] = [e.kind for e in dev.log[mark2:] if e.kind in ("hs_req", "data", "undecodable")]
         elif prior in ("fresh", "late"):
             try:
                 out["send"] = await ac._lan.send(FRAME)
@@ -170,6 +185,10 @@ def check_case(case: dict):
         return ("forged/no-request", "no handshake request reached the device")
     if out["after_creds"] != out["before_creds"]:
         return ("forged/creds-replaced", f"stored token/key changed from {out['before_creds']} to {out['after_creds']} by a failed authentication")
+    if prior == "expired":
+        if out["after_kinds"] and out["after_kinds"][0] != "hs_req":
+            return ("forged/stale-session-reused", f"after a rejected re-handshake of an expired session the next exchange sent {out['after_kinds'][:3]} "
+                    "without a new handshake")
     if prior in ("fresh", "late"):
         if out["send"] != "autherr":
             return ("forged/session-authenticated", f"send after failed authentication: {out['send']!r} (expected AuthenticationError); device saw {out['after_events']}")
@@ -203,7 +222,7 @@ def run(ctx) -> None:
         tok, key = _creds(s)
         base = {"token": tok.hex(), "key": key.hex(), "nonce": "%02x" % s, "token_form": ["bytes", "hex"][s % 2], "key_form": ["bytes", "hex"][(s // 2) % 2],
                 "prior": ["fresh", "authed"][s % 2]}
-        others = [p_ for p_ in ("fresh", "authed", "late") if p_ != base["prior"]]
+        others = [p_ for p_ in ("fresh", "authed", "late", "expired") if p_ != base["prior"]]
         muts = [["flip", b] for b in range(512)] + [["len", k] for k in (0, 1, 32, 63, 65, 96, 128)] + \
                [["ptype", t] for t in range(16) if t != 1] + [["error"], ["wrongkey", "random"], ["othernonce"], ["silence"], ["genuine"]] + \
                [["wrongkey", b] for b in range(0, 256, 16 if ctx.quick else 1)]
@@ -216,7 +235,7 @@ def run(ctx) -> None:
                 # also in the other prior state
                 n += 1
                 if ctx.mine(n):
-                    case = dict(base, mut=m, prior=others[n % 2])
+                    case = dict(base, mut=m, prior=others[n % 3])
                     ctx.check(case, lambda c: _run_one(ctx, c))
     ctx.sweep("512 bit flips + lengths + type nibbles + keys per credential set", n, True)
 
@@ -229,5 +248,5 @@ def run(ctx) -> None:
     cases = st.fixed_dictionaries({
         "token": hexb(gens.tokens64()), "key": hexb(gens.keys32()), "nonce": hexb(st.binary(min_size=1, max_size=8)),
         "token_form": st.sampled_from(["bytes", "hex"]), "key_form": st.sampled_from(["bytes", "hex"]),
-        "prior": st.sampled_from(["fresh", "fresh", "authed", "late"]), "mut": mut, "id": gens.device_ids(48)})
+        "prior": st.sampled_from(["fresh", "fresh", "authed", "late", "expired"]), "mut": mut, "id": gens.device_ids(48)})
     ctx.hyp("generated", cases, lambda c: _run_one(ctx, c), ctx.n(2400, 128000))
